@@ -76,6 +76,7 @@ KEY_F10 = 'ratfun.conjugate-pairing:repeated-complex-pole'
 KEY_DS0 = 'do_damped_sin:critically-damped'
 KEY_NEST = 'term:delay-dropped-on-expansion'
 KEY_FALLBACK = 'term:delay-dropped:sympy-fallback'
+KEY_DSDELAY = 'ratfun:damped_sin-ignores-delay'
 
 
 DS_BODY = r'''Section Obl.
@@ -473,6 +474,10 @@ def corpus_cases():
     u2 = poly_term([1], [0, 1], roots=[(G(0), 1)], pat='origin', T=3, c=-1)
     cs.append(mk_case([u1, u2], nested=True, ivfv=False, tag='nested-delay-nonrational'))
     cs.append(mk_case([u1, u2], nested=True, ivfv=False, opts=[('causal', True)], tag='nested-delay-nonrational'))
+    # (1/(s+1) + exp(-s)/(s**2+4))*exp(-s) with damped_sin: ratfun's damped-sin dispatch ignores the delay
+    v1 = poly_term([1], [1, 1], roots=[(G(-1), 1)], pat='real_simple', T=1)
+    v2 = poly_term([1], [4, 0, 1], roots=[(G(0, 2), 1), (G(0, -2), 1)], pat='imag_pair', T=2)
+    cs.append(mk_case([v1, v2], nested=True, ivfv=False, opts=[('causal', True), ('damped_sin', True)], tag='nested-ds-delay'))
     # plain sanity cases
     cs.append(mk_case([poly_term([1, 0, 1], [3, 1], roots=[(G(-3), 1)], pat='real_simple')], tag='improper'))
     cs.append(mk_case([poly_term([3, 1], [5, 2, 1], roots=[(G(-1, 2), 1), (G(-1, -2), 1)], pat='cpx_pair')], opts=[('damped_sin', True)], tag='ds'))
@@ -560,9 +565,16 @@ def gen_cases(rng, tier):
             # exp(-s*T0) * (R_0 + exp(-s*T_1') R_1 + ...): exercises the expand-and-recurse fall-back of term()
             T0 = rng.choice(DELAYS)
             inner = [Fraction(0)] + rng.sample(DELAYS, 2)
-            for k, tm in enumerate(terms):
+            for k in range(len(terms)):
+                # small sections only: Lcapy's fall-back simplifies the whole nested sum (minutes for degree >= 5)
+                for _ in range(20):
+                    tm = gen_term(rng, rng.choice(['real_simple', 'cpx_pair', 'origin', 'real_repeated', 'imag_pair']), improper=False)
+                    if len(tm['A']) - 1 <= 3:
+                        break
+                tm['c'] = rnd_rat(rng, nz=True)
                 tm['T'] = T0 + inner[k]
                 tm['form'] = 'ratio'
+                terms[k] = tm
             nested = True
         cases.append(mk_case(terms, const=const, opts=opts, damping=damping, nested=nested, **({'ivfv': False} if nested else {})))
     return cases
@@ -866,6 +878,20 @@ def classify(c, r, kinds, code, rng):
     for o in c['opts']:
         if o[0] == 'damped_sin':
             ds_on = o[1]
+    if c.get('nested') and ds_on and set(kinds) & {'roundtrip', 'causal', 'numeric', 'unparsed'} \
+            and any(max(len(pnorm(tm['B'])), len(pnorm(tm['A']))) - 1 == 2 and tm['T'] != min(x['T'] for x in c['terms']) for tm in c['terms']):
+        # ratfun() dispatches to do_damped_sin before it looks at the delay of its argument: inside the
+        # convolution attempt of term() (product_undef on the expanded sum) a delayed second-order piece is
+        # transformed as if it had no delay, the attempt succeeds and term() returns it without any delay
+        o = r.get('obs') or {}
+        if 'unparsed' in o:
+            # an unevaluated convolution (Integral) without any delayed step: the convolution attempt succeeded
+            if 'Integral' in o.get('text', '') and 'Heaviside(t -' not in o.get('text', ''):
+                return KEY_DSDELAY
+            return 'case:' + ','.join(sorted(set(kinds)))
+        pieces = [(tm['T'], (lambda s0, tm=tm: G(c['const'] * tm['c']) * peval(tm['B'], s0) / peval(tm['A'], s0))) for tm in c['terms']]
+        if _matches(c, o, pieces, set(range(len(pieces))), rng):
+            return KEY_DSDELAY
     if 'roundtrip' in kinds:
         dropped = dropped_delay_pieces(c, r, rng)
         if dropped is not None:
@@ -1090,7 +1116,8 @@ def run(tier='quick', replay=None):
             real = [k for k in kinds if k in ('roundtrip', 'nan', 'numeric', 'cache', 'causal', 'ivt', 'fvt', 'advance')]
             rec = {'case': jcases[i], 'expr': results[i].get('expr'), 'lcapy': results[i].get('obs'), 'oracle': orc.get(i, []), 'coq_code': code,
                    'certs': results[i].get('certs'), 'how': './check C10 --replay <this file>'}
-            if real or (code & 4):
+            key0 = classify(c, results[i], kinds, code, rng) if kinds else None
+            if real or (code & 4) or key0 == KEY_DSDELAY:
                 key = classify(c, results[i], kinds, code, rng)
                 res.counterexamples.append(rec)
                 by_key.setdefault(key, dict(rec, key=key, what='inverse Laplace transform of %s with %s does not transform back to the input (%s)' % (
